@@ -434,6 +434,14 @@ Definition all_done (s : st) : bool :=
 Definition mk_cfg_of (accs : list access) (inner outer : list mact) (w : nat) (ecap : nat) (sel : bool) : cfg :=
   mk_cfg (gen_body accs) inner outer w ecap 10 sel.
 
+(** the configuration denoted by the translator's skeleton (gen/Extracted.v):
+    pool_accesses, pool_post_accesses, sorter_post_accesses, pool_errchan_capacity, sorter_send_kind *)
+Definition cfg_of_skeleton (acc post outer : list string) (cap send : string) (w : nat) : option cfg :=
+  match parse_accesses acc, parse_prog parse_post post, parse_prog parse_outer outer with
+  | Some a, Some p, Some o => Some (mk_cfg (gen_body a) p o w (ecap_of cap w) 10 (send_ok send))
+  | _, _, _ => None
+  end.
+
 Definition accs_locked : list access :=
   [mk_access FRc KR true; mk_access FRc KW true; mk_access FAb KR true; mk_access FAb KW true].
 Definition accs_unlocked : list access :=
